@@ -176,6 +176,11 @@ struct Ctx {
   struct V { std::string key, detail; };
   std::vector<V> violations;
   std::recursive_mutex big;   // S2 only: every callback and every worker-side bookkeeping step holds it
+  // Task objects are destroyed by the engine while it holds its own locks; to keep lock ordering trivial the
+  // destructor only leaves a tombstone (under a leaf mutex) and the bookkeeping is done at the next callback.
+  struct Tomb { TaskCore* t; int key; bool accepted, delivered; std::string value; };
+  std::mutex tombMu; std::vector<Tomb> tombs;
+  void reap();
   Pool* pool = nullptr;
   std::atomic<unsigned long> beforeWaitTicks{0};
   std::atomic<bool> cancelIssuedAtomic{false};
@@ -228,7 +233,7 @@ struct Ctx {
   // ---- rule-side observations
   int onLookup(const std::string& name) { return prog->find(name); }
   bool onIsResultValid(int k, const std::string& v) {
-  std::unique_lock<std::recursive_mutex> _g(big, std::defer_lock); if (sched == Sched::S2Threads) _g.lock();
+  std::unique_lock<std::recursive_mutex> _g(big, std::defer_lock); if (sched == Sched::S2Threads) _g.lock(); reap();
     checkThread("isResultValid"); event("isResultValid");
     const KeyDef& kd = prog->keys[k];
     bool ans;
@@ -245,7 +250,7 @@ struct Ctx {
     return ans;
   }
   void onStatus(int k, int kind) {
-  std::unique_lock<std::recursive_mutex> _g(big, std::defer_lock); if (sched == Sched::S2Threads) _g.lock();
+  std::unique_lock<std::recursive_mutex> _g(big, std::defer_lock); if (sched == Sched::S2Threads) _g.lock(); reap();
     checkThread("updateStatus"); event("updateStatus");
     if (kind == 0) { scanningSeen[k] = 1; return; }
     if (kind == 1) {
@@ -284,7 +289,7 @@ struct Ctx {
     s.interrupted = false; s.hasInterruptedValue = false;
   }
   void onNeedsToRun(int k, int reason, int inputKey) {
-  std::unique_lock<std::recursive_mutex> _g(big, std::defer_lock); if (sched == Sched::S2Threads) _g.lock();
+  std::unique_lock<std::recursive_mutex> _g(big, std::defer_lock); if (sched == Sched::S2Threads) _g.lock(); reap();
     checkThread("determinedRuleNeedsToRun"); event("determinedRuleNeedsToRun");
     reasonSeen[k] = reason; reasonInput[k] = inputKey;
     if (!monitorsOn) return;
@@ -303,7 +308,7 @@ struct Ctx {
     }
   }
   void onCreateTask(int k) {
-  std::unique_lock<std::recursive_mutex> _g(big, std::defer_lock); if (sched == Sched::S2Threads) _g.lock();
+  std::unique_lock<std::recursive_mutex> _g(big, std::defer_lock); if (sched == Sched::S2Threads) _g.lock(); reap();
     checkThread("createTask"); event("createTask");
     ++nExecuted;
     if (!traces.empty()) traces.back().executed.push_back(k);
@@ -327,7 +332,7 @@ struct Ctx {
   // ---- hook (engine idle points)
   void onHook(int point) {
     if (point == 0) {
-      std::unique_lock<std::recursive_mutex> _g(big, std::defer_lock); if (sched == Sched::S2Threads) _g.lock();
+      std::unique_lock<std::recursive_mutex> _g(big, std::defer_lock); if (sched == Sched::S2Threads) _g.lock(); reap();
       ++hookLoopTop; event("LoopTop");
       if (cancelIssued || cancelIssuedAtomic.load()) { cancelIssued = true; cancelObserved = true; }
       return;
@@ -335,6 +340,7 @@ struct Ctx {
     if (sched == Sched::S2Threads) { std::lock_guard<std::recursive_mutex> g(big); if (point == 1) ++hookBeforeWait; else ++hookCancelDrain; ++gEvents; beforeWaitTicks++; return; }
     if (point == 1) ++hookBeforeWait; else ++hookCancelDrain;
     event(point == 1 ? "BeforeWait" : "CancelDrainWait");
+    reap();
     // S0/S1: the engine thread is the only thread; if it is about to block, something must be parked.
     std::vector<TaskCore*> undelivered;
     for (auto* t : parked) if (!t->completionDelivered) undelivered.push_back(t);
@@ -369,22 +375,29 @@ struct Ctx {
 
 // ------------------------------------------------------------------------------------------------ TaskCore impl
 inline TaskCore::TaskCore(Ctx& cx, int key) : cx(cx), key(key), buildNo(cx.buildNo) {
-  std::unique_lock<std::recursive_mutex> _g(cx.big, std::defer_lock); if (cx.sched == Sched::S2Threads) _g.lock();
+  std::unique_lock<std::recursive_mutex> _g(cx.big, std::defer_lock); if (cx.sched == Sched::S2Threads) _g.lock(); cx.reap();
   size_t n = cx.prog->keys[key].statics.size() + cx.prog->keys[key].dyns.size();
   requested.assign(n, 0); provided.assign(n, 0); got.assign(n, "");
   cx.liveTasks.push_back(this); cx.taskOfKey[key] = this;
 }
 inline TaskCore::~TaskCore() {
-  std::unique_lock<std::recursive_mutex> _g(cx.big, std::defer_lock); if (cx.sched == Sched::S2Threads) _g.lock();
-  if (!accepted && cx.monitorsOn) {   // destroyed without the engine accepting a result: cancelled or cycle-failed build
-    Shadow& s = cx.shadow[key];
-    s.interrupted = true;
-    if (completionDelivered) { s.hasInterruptedValue = true; s.interruptedValue = comp.value; }
-    ++cx.nInterrupted;
+  std::lock_guard<std::mutex> g(cx.tombMu);
+  cx.tombs.push_back({this, key, accepted, completionDelivered, comp.value});
+}
+inline void Ctx::reap() {
+  std::vector<Tomb> ts;
+  { std::lock_guard<std::mutex> g(tombMu); ts.swap(tombs); }
+  for (auto& tb : ts) {
+    if (!tb.accepted && monitorsOn) {   // destroyed without the engine accepting a result: cancelled or cycle-failed build
+      Shadow& s = shadow[tb.key];
+      s.interrupted = true;
+      if (tb.delivered) { s.hasInterruptedValue = true; s.interruptedValue = tb.value; }
+      ++nInterrupted;
+    }
+    auto rm = [&](std::vector<TaskCore*>& v) { v.erase(std::remove(v.begin(), v.end(), tb.t), v.end()); };
+    rm(liveTasks); rm(parked); rm(awaitingAcceptance);
+    auto it = taskOfKey.find(tb.key); if (it != taskOfKey.end() && it->second == tb.t) taskOfKey.erase(it);
   }
-  auto rm = [&](std::vector<TaskCore*>& v) { v.erase(std::remove(v.begin(), v.end(), this), v.end()); };
-  rm(cx.liveTasks); rm(cx.parked); rm(cx.awaitingAcceptance);
-  auto it = cx.taskOfKey.find(key); if (it != cx.taskOfKey.end() && it->second == this) cx.taskOfKey.erase(it);
 }
 inline void TaskCore::issue(TaskOps& ops, size_t id, const Req& rq) {
   requested[id] = 1;
@@ -394,7 +407,7 @@ inline void TaskCore::issue(TaskOps& ops, size_t id, const Req& rq) {
   else { issued.push_back({rq.key, false, false}); ops.request(nm, id); }
 }
 inline void TaskCore::onStart(TaskOps& ops) {
-  std::unique_lock<std::recursive_mutex> _g(cx.big, std::defer_lock); if (cx.sched == Sched::S2Threads) _g.lock();
+  std::unique_lock<std::recursive_mutex> _g(cx.big, std::defer_lock); if (cx.sched == Sched::S2Threads) _g.lock(); cx.reap();
   cx.checkThread("start"); cx.event("start");
   if (st != Created) cx.viol("M-proto: start delivered twice or out of order", cx.kdesc(key));
   st = Started;
@@ -402,7 +415,7 @@ inline void TaskCore::onStart(TaskOps& ops) {
   for (size_t i = 0; i < kd.statics.size(); ++i) issue(ops, i, kd.statics[i]);
 }
 inline void TaskCore::onPrior(const std::string& v) {
-  std::unique_lock<std::recursive_mutex> _g(cx.big, std::defer_lock); if (cx.sched == Sched::S2Threads) _g.lock();
+  std::unique_lock<std::recursive_mutex> _g(cx.big, std::defer_lock); if (cx.sched == Sched::S2Threads) _g.lock(); cx.reap();
   cx.checkThread("providePriorValue"); cx.event("providePriorValue");
   ++cx.nPrior;
   if (!cx.traces.empty()) cx.traces.back().priors.push_back({key, v});
@@ -416,7 +429,7 @@ inline void TaskCore::onPrior(const std::string& v) {
     cx.viol("M-proto: providePriorValue carries a value other than the stored result", cx.kdesc(key) + " got=" + vf::hex(v.substr(0, 32)) + " stored=" + vf::hex(s.value.substr(0, 32)));
 }
 inline void TaskCore::onProvide(TaskOps& ops, uintptr_t id, const std::string* keyName, const std::string& v) {
-  std::unique_lock<std::recursive_mutex> _g(cx.big, std::defer_lock); if (cx.sched == Sched::S2Threads) _g.lock();
+  std::unique_lock<std::recursive_mutex> _g(cx.big, std::defer_lock); if (cx.sched == Sched::S2Threads) _g.lock(); cx.reap();
   cx.checkThread("provideValue"); cx.event("provideValue");
   ++cx.nProvide;
   const KeyDef& kd = cx.prog->keys[key];
@@ -444,7 +457,7 @@ inline void TaskCore::onProvide(TaskOps& ops, uintptr_t id, const std::string* k
   }
 }
 inline void TaskCore::onInputsAvailable(TaskOps& ops) {
-  std::unique_lock<std::recursive_mutex> _g(cx.big, std::defer_lock); if (cx.sched == Sched::S2Threads) _g.lock();
+  std::unique_lock<std::recursive_mutex> _g(cx.big, std::defer_lock); if (cx.sched == Sched::S2Threads) _g.lock(); cx.reap();
   cx.checkThread("inputsAvailable"); cx.event("inputsAvailable");
   const KeyDef& kd = cx.prog->keys[key];
   if (st == Available || st == Completed) cx.viol("M-proto: inputsAvailable delivered more than once", cx.kdesc(key));
@@ -495,6 +508,7 @@ inline void TaskCore::deliverFromWorker(TaskOps& ops) {
     else if (mode != 1) usleep(delayUs);
     {
       std::lock_guard<std::recursive_mutex> g(c->big);
+      c->reap();
       self->completionDelivered = true; self->st = Completed;
       if (extOut) { c->world.out[k] = cp.value; c->world.outPresent[k] = 1; }
       c->awaitingAcceptance.push_back(self);
@@ -508,7 +522,7 @@ inline void TaskCore::deliverFromWorker(TaskOps& ops) {
 
 // ------------------------------------------------------------------------------------------------ cycles (C07)
 inline void Ctx::onCycle(const std::vector<int>& keys) {
-  std::unique_lock<std::recursive_mutex> _g(big, std::defer_lock); if (sched == Sched::S2Threads) _g.lock();
+  std::unique_lock<std::recursive_mutex> _g(big, std::defer_lock); if (sched == Sched::S2Threads) _g.lock(); reap();
   checkThread("cycleDetected"); event("cycleDetected");
   if (cycleReported) viol("M-cycle: cycleDetected reported more than once in one build", "");
   cycleReported = true; cycleKeys = keys;
@@ -542,12 +556,12 @@ inline void Ctx::onCycle(const std::vector<int>& keys) {
 }
 
 inline void Ctx::endBuild(const std::string& result) {
-  std::unique_lock<std::recursive_mutex> _g(big, std::defer_lock); if (sched == Sched::S2Threads) _g.lock();
+  std::unique_lock<std::recursive_mutex> _g(big, std::defer_lock); if (sched == Sched::S2Threads) _g.lock(); reap();
   buildActive = false;
   if (cancelIssuedAtomic.load()) cancelIssued = true;
   BuildTrace& tr = traces.back();
   // a cancellation that arrived after the last loop-top test is too late to matter: the build may finish normally
-  bool cancelled = cancelIssued && (cancelObserved || (result.empty() && !cycleReported && errors.empty() && !(upToDateSeen[target] || completeSeen[target])));
+  bool cancelled = cancelIssued && !cycleReported && errors.empty() && (cancelObserved || result.empty());
   tr.cancelled = cancelled; tr.result = result;
   tr.success = !cycleReported && !cancelled && errors.empty();
   if (!monitorsOn) return;
